@@ -477,6 +477,8 @@ impl StorageEngine {
         // Generate shard name and logical time
         let shard = format!("{kg}:{relation}");
         let time = self.logical_time.fetch_add(1, Ordering::SeqCst);
+        #[cfg(inputlayer_verif)]
+        crate::verif_hooks::point("se.write.after_time");
 
         // Create DD-style updates (+1 diff for insert)
         let updates: Vec<Update> = tuples
@@ -499,6 +501,8 @@ impl StorageEngine {
 
         // Release dropping_kgs guard before acquiring KG write lock
         drop(dropping_guard);
+        #[cfg(inputlayer_verif)]
+        crate::verif_hooks::point("se.write.after_persist");
 
         // Update in-memory state
         let db = self
@@ -595,6 +599,8 @@ impl StorageEngine {
         // Generate shard name and logical time
         let shard = format!("{kg}:{relation}");
         let time = self.logical_time.fetch_add(1, Ordering::SeqCst);
+        #[cfg(inputlayer_verif)]
+        crate::verif_hooks::point("se.write.after_time");
 
         // Create DD-style updates (-1 diff for delete)
         let updates: Vec<Update> = tuples
@@ -608,6 +614,8 @@ impl StorageEngine {
 
         // Release dropping_kgs guard before acquiring KG write lock
         drop(dropping_guard);
+        #[cfg(inputlayer_verif)]
+        crate::verif_hooks::point("se.write.after_persist");
 
         // Update in-memory state
         let db = self
